@@ -26,6 +26,7 @@ import (
 	"github.com/anacrolix/dht/v2/krpc"
 
 	"verifharness/kit"
+	"verifharness/refmodel"
 	"verifharness/simnet"
 )
 
@@ -33,7 +34,7 @@ type C14Sc struct {
 	Op       string // query | ping | bootstrap | announce | get | put | tm
 	NumTries int
 	// Fault (query/ping): none | reply-at-send | reply-at-final-wait | reply-after-return | cancel-before-send |
-	// cancel-at-delay | write-error | close-at-delay | after-close
+	// cancel-at-delay | cancel-and-reply-at-send | write-error | close-at-delay | after-close
 	// Fault (traversals): none | no-starting | resolver-error | silent | write-error | close-at-write | cancel-at-write | after-close
 	Fault string
 	At    int
@@ -44,7 +45,7 @@ type C14Sc struct {
 	AlsoWriteErrorAt int
 }
 
-var c14QueryFaults = []string{"none", "reply-at-send", "reply-at-final-wait", "reply-after-return", "cancel-before-send", "cancel-at-delay", "write-error", "close-at-delay", "after-close"}
+var c14QueryFaults = []string{"none", "reply-at-send", "reply-at-final-wait", "reply-after-return", "cancel-before-send", "cancel-at-delay", "cancel-and-reply-at-send", "write-error", "close-at-delay", "after-close"}
 var c14TravFaults = []string{"none", "no-starting", "resolver-error", "silent", "write-error", "close-at-write", "cancel-at-write", "after-close"}
 var c14TravOps = []string{"bootstrap", "announce", "get", "put", "tm"}
 
@@ -150,7 +151,7 @@ func runC14Query(sc C14Sc, c *kit.Case) *kit.Violation {
 		sv.C.BeforeWrite = func(to *net.UDPAddr, data []byte) {
 			mu.Lock()
 			defer mu.Unlock()
-			if sc.Fault == "cancel-before-send" && writeIdx+1 == sc.At && sc.Op == "query" {
+			if (sc.Fault == "cancel-before-send" || sc.Fault == "cancel-and-reply-at-send") && writeIdx+1 == sc.At && sc.Op == "query" {
 				cancelled = true
 				cancel()
 			}
@@ -170,7 +171,7 @@ func runC14Query(sc C14Sc, c *kit.Case) *kit.Violation {
 			if (sc.Fault == "write-error" && writeIdx == sc.At) || (sc.AlsoWriteErrorAt != 0 && writeIdx == sc.AlsoWriteErrorAt) {
 				return false, errors.New("simulated socket write failure")
 			}
-			if sc.Fault == "reply-at-send" && writeIdx == sc.At && !replied {
+			if (sc.Fault == "reply-at-send" || sc.Fault == "cancel-and-reply-at-send") && writeIdx == sc.At && !replied {
 				replied = true
 				reply(m.T)
 				return true, nil
@@ -307,7 +308,7 @@ func c14Expect(sc C14Sc) (kind string, writes int) {
 	}
 	cancelled := false
 	for i := 1; i <= n; i++ {
-		if sc.Fault == "cancel-before-send" && sc.At == i && ctxOp {
+		if (sc.Fault == "cancel-before-send" || sc.Fault == "cancel-and-reply-at-send") && sc.At == i && ctxOp {
 			cancelled = true
 		}
 		if (sc.Fault == "write-error" && sc.At == i) || sc.AlsoWriteErrorAt == i {
@@ -316,7 +317,7 @@ func c14Expect(sc C14Sc) (kind string, writes int) {
 			}
 			return "error", i
 		}
-		if sc.Fault == "reply-at-send" && sc.At == i {
+		if (sc.Fault == "reply-at-send" || sc.Fault == "cancel-and-reply-at-send") && sc.At == i {
 			if cancelled {
 				return "reply-or-canceled", i
 			}
@@ -369,7 +370,11 @@ func runC14Trav(sc C14Sc, c *kit.Case) *kit.Violation {
 	}
 	base := sv.C.Census()
 	net1 := newSimNet(sv)
-	addFriendlyNet(net1, nNodes, func(i int, q SimQuery) bool { return sc.Fault == "silent" })
+	fn := addFriendlyNet(net1, nNodes, func(i int, q SimQuery) bool { return sc.Fault == "silent" })
+	const heldValue = "9:c14-value"
+	if sc.At%2 == 0 {
+		fn.Value = heldValue // every node holds the item a get asks for: several holders answer at once
+	}
 	var mu sync.Mutex
 	writes := 0
 	closedNow := false
@@ -447,7 +452,7 @@ func runC14Trav(sc C14Sc, c *kit.Case) *kit.Violation {
 			}()
 		case "get":
 			go func() {
-				_, _, err := getput.Get(ctx, bep44.Target{0x9e, byte(rep)}, sv.S, nil, nil)
+				_, _, err := getput.Get(ctx, bep44.Target(refmodel.Bep44ImmutableTarget([]byte(heldValue))), sv.S, nil, nil)
 				done <- err
 			}()
 		case "put":
@@ -546,7 +551,7 @@ func TestC14Grid(t *testing.T) {
 		for _, f := range c14QueryFaults {
 			ats := []int{1}
 			switch f {
-			case "reply-at-send", "cancel-before-send", "write-error":
+			case "reply-at-send", "cancel-before-send", "cancel-and-reply-at-send", "write-error":
 				ats = nil
 				for i := 1; i <= n; i++ {
 					ats = append(ats, i)
@@ -584,7 +589,7 @@ func TestC14Grid(t *testing.T) {
 
 func init() {
 	kit.Register("C14a",
-		"fault-placement grid, enumerated completely by TestC14Grid and sampled with combinations by rapid: Query with NumTries 1..4 and Ping x {no fault; reply delivered inside send i; reply delivered in the wait after the last send; reply after the time-out; context cancelled inside send i / in the resend wait i / in the final wait; socket write error on send i (optionally a second one); Close in wait i; query after Close}, and Bootstrap / Announce / getput.Get / getput.Put / one TableMaintainer pass over 1..14 simulated nodes x {no fault; no starting nodes; starting-node resolver error; nobody answers; write error on the k-th write; Close at the k-th write; context cancelled at the k-th write; after Close}; each cell repeated 1..4 times on one server. Placements are exact: the fault is applied on the sender's goroutine inside the socket write or the QueryResendDelay callback. Oracle: the call returns (deadlock detector); result = the reply, context.Canceled, the write error or TransactionTimeout as the placement dictates; datagrams carrying one transaction ID <= NumTries and exactly as many as the placement dictates; afterwards no pending transaction and the multiset of library goroutines equals the idle baseline (none after Close); after Close a new query fails and writes nothing; a reply after the time-out changes nothing. Non-trivial: any cell other than 'no fault'.",
+		"fault-placement grid, enumerated completely by TestC14Grid and sampled with combinations by rapid: Query with NumTries 1..4 and Ping x {no fault; reply delivered inside send i; reply delivered in the wait after the last send; reply after the time-out; context cancelled inside send i / in the resend wait i / in the final wait; cancelled and answered inside the same send; socket write error on send i (optionally a second one); Close in wait i; query after Close}, and Bootstrap / Announce / getput.Get / getput.Put / one TableMaintainer pass over 1..14 simulated nodes x {no fault; no starting nodes; starting-node resolver error; nobody answers; write error on the k-th write; Close at the k-th write; context cancelled at the k-th write; after Close}; each cell repeated 1..4 times on one server. Placements are exact: the fault is applied on the sender's goroutine inside the socket write or the QueryResendDelay callback. Oracle: the call returns (deadlock detector); result = the reply, context.Canceled, the write error or TransactionTimeout as the placement dictates; datagrams carrying one transaction ID <= NumTries and exactly as many as the placement dictates; afterwards no pending transaction and the multiset of library goroutines equals the idle baseline (none after Close); after Close a new query fails and writes nothing; a reply after the time-out changes nothing. Non-trivial: any cell other than 'no fault'.",
 		[]string{"time-outs are virtual: the resend-delay callback returns 0 for unanswered sends and one hour once the scripted reply is queued", "goroutine census = goroutines with a frame of, or created by, the module under test, keyed by innermost module function"},
 		genC14, runC14)
 }
